@@ -145,23 +145,23 @@ func checkC02(c *Ctx, r *Report) {
 	installedRecognisers(c, r, "R2.3", crc, map[string]bool{c.fnMust("packet", "AsTCPErrorPacket").String() + "/false": true, c.fnMust("packet", "AsRTUErrorPacket").String() + "/true": true})
 	// R2.7: a reply is reported either as a response or as an error, never as neither: every
 	// return of the reply dispatchers pairs a nil response with a non-nil error (C10 R10.3)
-	{
-		tmp := newReport(r.Prop, r.Tier)
-		runC10On(c, tmp, "packet", nil, false)
-		n := 0
-		for _, it := range tmp.items {
-			if it.Rule == "R10.3" && strings.Contains(it.Construct, "Response") && !strings.Contains(it.Construct, "Request") && strings.Contains(it.Construct, "packet.Parse") && (strings.HasSuffix(it.Construct, "TCPResponse") || strings.HasSuffix(it.Construct, "RTUResponse") || strings.HasSuffix(it.Construct, "ResponseWithCRC")) {
-				it.Rule = "R2.7"
-				r.add(it)
-				n++
-			}
-		}
-		r.instance("R2.7", n)
-		r.floor("R2.7", 6)
-	}
+	c02NeverNeither(c, r, "R2.7")
+	r.floor("R2.7", 6)
 	for _, name := range []string{"ParseTCPResponse", "ParseRTUResponse"} {
 		c02Dispatcher(c, r, c.fnMust("packet", name), name == "ParseTCPResponse", false)
 	}
+	// R2.9: what the client parses is what the device sent: Do hands do()'s result to the parser
+	// unchanged (C19 R19.3 / C12 R12.5)
+	for _, spec := range []struct {
+		name   string
+		serial bool
+	}{{"Client", false}, {"SerialClient", true}} {
+		ci := analyseClient(c, spec.name, spec.serial)
+		tmp := newReport(r.Prop, r.Tier)
+		c19Client(c, tmp, ci, false)
+		r.instance("R2.9", copyItems(tmp, r, "R19.3", "R2.9", "the parsed frame is do()'s result"))
+	}
+	r.floor("R2.9", 2)
 	// R2.5: an exception frame can only become a typed error if the clients hand the recogniser
 	// everything received so far (a fragmented exception reply must still be recognised)
 	clientLoopItems(c, r, "R7.3", "R2.5", "the recogniser sees received[0:total]", "runs in every iteration", "returned as *ClientError wrapping")
@@ -524,6 +524,7 @@ func c02Dispatcher(c *Ctx, r *Report, fn *ssa.Function, tcp, control bool) map[s
 		callee *ssa.Function
 		state  DNF
 		pos    string
+		arg0   AV
 	}
 	var calls []callRec
 	// calls made by the dispatcher itself or by an unexported helper it delegates to (a shared
@@ -544,7 +545,11 @@ func c02Dispatcher(c *Ctx, r *Report, fn *ssa.Function, tcp, control bool) map[s
 				return
 			}
 		}
-		calls = append(calls, callRec{callee, f.cur, c.pos(ci.Pos())})
+		var a0 AV
+		if len(args) > 0 {
+			a0 = args[0]
+		}
+		calls = append(calls, callRec{callee, f.cur, c.pos(ci.Pos()), a0})
 	}
 	fr := an.newFrame(fn, nil, nil)
 	fr.run(dnfTrue())
@@ -641,6 +646,14 @@ func c02Dispatcher(c *Ctx, r *Report, fn *ssa.Function, tcp, control bool) map[s
 		if !control {
 			r.instance("R2.4", 1)
 		}
+		// the per-function parser is shown everything the dispatcher was given (for a verifying
+		// dispatcher: everything but the checked trailer): a dispatcher that trims its input hides
+		// surplus or missing bytes from the parser's own length checks
+		if s, ok := cl.arg0.(ASlice); ok {
+			whole := s.root == data.root && cl.state.entails(atomEQ(s.off, data.off)) &&
+				(cl.state.entails(atomEQ(s.ln, data.ln)) || cl.state.entails(atomEQ(s.ln, data.ln.addc(-2))))
+			rep("R2.4", whole, fmt.Sprintf("%s is handed the dispatcher's whole input", cl.callee.Name()), describeAV(cl.arg0), "dispatcher-trims-input:"+cl.callee.Name(), cl.pos)
+		}
 		okFC := cl.state.entails(atomEQ(fcb, affConst(pi.fc)))
 		rep("R2.4", okFC && pi.tcp == tcp, fmt.Sprintf("case for function code %d calls %s (type reports FC %d, %s framing)", pi.fc, cl.callee.Name(), pi.fc, map[bool]string{true: "TCP", false: "RTU"}[pi.tcp]),
 			"state at call: "+truncate(cl.state.String(), 200), fmt.Sprintf("dispatch:%s", cl.callee.Name()), cl.pos)
@@ -696,4 +709,20 @@ func crcIf(crc *ssa.Function, rtu bool) *ssa.Function {
 		return crc
 	}
 	return nil
+}
+
+// c02NeverNeither copies the C10 R10.3 items of the reply dispatchers (value nil <=> error
+// non-nil on every return) under the given rule id.
+func c02NeverNeither(c *Ctx, r *Report, rule string) {
+	tmp := newReport(r.Prop, r.Tier)
+	runC10On(c, tmp, "packet", nil, false)
+	n := 0
+	for _, it := range tmp.items {
+		if it.Rule == "R10.3" && strings.Contains(it.Construct, "Response") && !strings.Contains(it.Construct, "Request") && strings.Contains(it.Construct, "packet.Parse") && (strings.HasSuffix(it.Construct, "TCPResponse") || strings.HasSuffix(it.Construct, "RTUResponse") || strings.HasSuffix(it.Construct, "ResponseWithCRC")) {
+			it.Rule = rule
+			r.add(it)
+			n++
+		}
+	}
+	r.instance(rule, n)
 }
